@@ -37,6 +37,10 @@ REQUIRED_LAWS = [
     "covariance-function-result",
     "contravariance-function-parameters",
     "equiv-differs-in-result",
+    "coercion-rule",
+    "result-conforms-or-null",
+    "idempotent",
+    "inhabitant-kept",
 ]
 
 
@@ -175,11 +179,11 @@ def run(rep, tier, seed):
     for k in range(n_sets):
         add("d2s", {"op": "types", "mode": "sample", "size": set_size, "seed": seed * 100003 + k, "direct_triples": 4000})
     # ---- C. coercion: values x targets by direct calls ----
-    n_values = 3 * DEPTH1_TYPES + 16
+    n_values = 3 * DEPTH1_TYPES + 10 + 16  # the driver reports its pool size; checked below
     for lo, hi in _split(n_values, 48):
         add("co", {"op": "coerce", "mode": "universe", "rows": [lo, hi]})
     # ---- D. coercion through FEEL invocations ----
-    n_feel_values = 784
+    n_feel_values = 794
     stride = 1
     for lo, hi in _split(n_feel_values, 48):
         add("feel", {"op": "coerce", "mode": "feel", "rows": [lo, hi], "target_stride": stride, "seed": seed})
@@ -254,6 +258,7 @@ def _digest(rep, variant, tags, cases, results, thorough, reduced):
                     g[k] = g.get(k, 0) + int(res[k])
             g["values"] = g.get("values", 0) + int(res.get("n_values", 0))
             g["targets"] = int(res.get("n_targets", 0))
+            g["pool"] = int(res.get("pool", 0))
             for k, v in (res.get("outcomes") or {}).items():
                 g.setdefault("outcomes", {})
                 g["outcomes"][k] = g["outcomes"].get(k, 0) + int(v)
@@ -331,6 +336,8 @@ def _digest(rep, variant, tags, cases, results, thorough, reduced):
             if merged.laws.get(law, 0) < 20:
                 rep.inconclusive_reason("law '%s' was exercised only %d times" % (law, merged.laws.get(law, 0)))
         for label, g, floor in (("direct coercion", co, 1_000_000), ("FEEL coercion", fe, 200_000)):
+            if g.get("values") != g.get("pool"):
+                rep.inconclusive_reason("%s: %s of %s values of the pool were walked" % (label, g.get("values"), g.get("pool")))
             if (g.get("calls") or 0) < floor:
                 rep.inconclusive_reason("%s: only %s calls observed (floor %d)" % (label, g.get("calls"), floor))
             for outcome in ("identity", "wrap", "unwrap", "null"):
